@@ -255,9 +255,9 @@ fn get_data_type(
                 })
             }
             NamedType(name) => {
-                if name.value == "int" {
-                    Some(DataType::Int)
-                } else if let Some(entry) = table.lookup(&name.value) {
+                // `int` is an ordinary entry of the global table,
+                // which a parameter or variable of the same name hides like any other type
+                if let Some(entry) = table.lookup(&name.value) {
                     if let Entry::Type(t) = &entry {
                         t.data_type.clone()
                     } else {
